@@ -24,7 +24,7 @@ def expected_block(k, n_vis, B, H):
     return exists, lo, hi
 
 
-def reader_harness(L, sw, ch, sr, K, overlap, limit, record, srckind="bytes"):
+def reader_harness(L, sw, ch, sr, K, overlap, limit, record, srckind="bytes", frac=False):
     bps = sw * ch
     util = L.modules["util"]
     iom = L.modules["io"]
@@ -36,7 +36,15 @@ def reader_harness(L, sw, ch, sr, K, overlap, limit, record, srckind="bytes"):
         e.assume(B >= 1)
         syms = dict(n=n, B=B)
         kw = dict(block_dur=SymRat(B, sr), sr=sr, sw=sw, ch=ch)
-        if overlap:
+        if overlap and frac:
+            # durations with quarter-sample resolution: block = floor(Bq/4), hop = floor(Hq/4) samples, Hq < Bq (so the two may
+            # floor to the same number of samples)
+            Bq, Hq, br, hr = I("Bq"), I("Hq"), I("br"), I("hr")
+            e.assume(z3.And(Bq == 4 * B + br, br >= 0, br < 4, Hq == 4 * H + hr, hr >= 0, hr < 4, H >= 1, Hq < Bq))
+            kw["block_dur"] = SymRat(Bq, 4 * sr)
+            kw["hop_dur"] = SymRat(Hq, 4 * sr)
+            syms.update(H=H, Bq=Bq, Hq=Hq)
+        elif overlap:
             e.assume(z3.And(H >= 1, H < B))
             kw["hop_dur"] = SymRat(H, sr)
             syms["H"] = H
@@ -52,7 +60,7 @@ def reader_harness(L, sw, ch, sr, K, overlap, limit, record, srckind="bytes"):
             n_vis = z3.If(M < n, M, n)
         if record:
             kw["record"] = True
-        meta = dict(sw=sw, ch=ch, sr=sr, K=K, overlap=overlap, limit=limit, record=record, srckind=srckind)
+        meta = dict(sw=sw, ch=ch, sr=sr, K=K, overlap=overlap, limit=limit, record=record, srckind=srckind, frac=frac)
         try:
             if srckind == "bytes":
                 inp = data
@@ -184,6 +192,10 @@ def replay_fn(c):
     kw = dict(block_dur=B / sr)
     if c["overlap"]:
         kw["hop_dur"] = H / sr
+    if c.get("frac"):
+        kw["block_dur"], kw["hop_dur"] = c["Bq"] / (4 * sr), c["Hq"] / (4 * sr)
+        if int(kw["block_dur"] * sr) != B or int(kw["hop_dur"] * sr) != H or not kw["hop_dur"] < kw["block_dur"]:
+            return []
     n_vis = n
     if c["limit"]:
         mrc = byt.max_read_concrete(c["Mq"], sr)
@@ -194,7 +206,7 @@ def replay_fn(c):
     if c["record"]:
         kw["record"] = True
     # B/sr etc. must survive the float round trip, otherwise the run is outside the idealisation
-    if int((B / sr) * sr) != B or (c["overlap"] and int((H / sr) * sr) != H):
+    if not c.get("frac") and (int((B / sr) * sr) != B or (c["overlap"] and int((H / sr) * sr) != H)):
         return []
     desc = "AudioReader(%d samples sw=%d ch=%d sr=%d, block=%d hop=%s max_read=%s record=%s, input=%s)" % (
         n, sw, ch, sr, B, H if c["overlap"] else None, ("%s/4 samples" % c.get("Mq")) if c["limit"] else None, c["record"], c["srckind"])
@@ -273,6 +285,11 @@ def run(rep):
                     ex = explore(reader_harness(L, sw, ch, 10, K, overlap, limit, record))
                     rep.add_exploration(hn, ex)
                     tok.handle_cex(rep, hn, ex, replay_fn, ideal=True)
+    for limit in (False, True):
+        hn = "reader[fractional block/hop,K=%d,%s]" % (min(K, 6), "limit" if limit else "")
+        ex = explore(reader_harness(L, 2, 1, 10, min(K, 6), True, limit, False, "bytes", frac=True))
+        rep.add_exploration(hn, ex)
+        tok.handle_cex(rep, hn, ex, replay_fn, ideal=True)
     for srckind in ("source", "raw", "wav"):
         for overlap in (False, True):
             hn = "reader[%s,K=%d,%slimit]" % (srckind, min(K, 6), "overlap," if overlap else "")
